@@ -1,6 +1,7 @@
 """C13: WebSocket messages arrive intact, in order, on an RFC 6455-valid wire
 (spec/wswire: WsWire = validator of recorded frame streams, WsWriterCfg = configuration matrix,
-WsHandshake = opening handshake table)."""
+WsPeer = conformant foreign sender + implementation-shaped receiver on symbolic octets, WsHandshake = opening
+handshake table)."""
 import copy
 import json
 import os
@@ -16,6 +17,7 @@ DEVS = ["rsv1-on-continuation", "rsv1-missing", "rsv1-uncompressed", "len16-for-
         "control-fragmented", "control-126", "control-rsv1", "deflate-tail-kept", "payload-truncated", "rsv3-set"]
 SELFTEST_BASE = 9000000      # session numbers of the corrupted copies (binding self-test)
 HS_BASE = 1000000            # session numbers of the handshake stage
+PEER_DEVS = ["mask-offset-per-message", "mask-key-kept", "mask-pos-per-read", "decompress-sticky"]
 
 
 def _dev_cfg(dev):
@@ -132,13 +134,20 @@ def run(ctx):
     ctx.rule = ("WsWriterCfg: TLC enumerates the sessions of the factored matrix role x compression(level, payload kind) x write buffer x "
                 "API x size class x partition class (single messages), all ordered pairs / triples of a menu of steps with and without "
                 "control frames (multi-message), thorough: all levels, multi-megabyte messages, seeded random partitions, simulated "
-                "5-message sessions; WsHandshake: crafted requests with at most 2 (thorough 3) fields off the conformant request x server "
+                "5-message sessions; resid: write buffers of every residue modulo 8 (thorough: 1..9, 121..136, 1001, 4095, 4097) x API x "
+                "messages of 2..6 fragments; WsPeer: TLC enumerates every stream of a conformant foreign sender (one message cut at any "
+                "2 (thorough 3) of 14 lengths covering the residues modulo 4 and 8 below and above two machine words, at any 3 (4) of 6 "
+                "lengths; lists of 2 and 3 messages compressed or not in every order with a ping between any two frames) x role x Read "
+                "size of the receiving application, each written with 4 masking-key schedules into a real Conn; WsHandshake: crafted requests with at most 2 (thorough 3) fields off the conformant request x server "
                 "configurations, scripted responses x client configurations, library client x library server; a case is distinct if its "
                 "JSON differs. Every session is replayed into real Conn endpoints; every frame the library wrote becomes one step of "
                 "Trace_WsWire (sessions with identical role, messages and frame records are validated once)")
     ctx.exhaustive = not thorough
     ctx.assumptions += [
         "payload bytes are a position-dependent pattern or seeded random bytes, not all byte strings",
+        "WsPeer: octets and masking keys are symbolic (exact for keys with independent octets); the harness uses 4 key schedules "
+        "(fresh distinct-octet key per frame, one key, seeded random, equal-octet/zero keys), the frame lengths of a compressed "
+        "message are cut points in the real DEFLATE output as far as it reaches",
         "frame records are produced by the harness's own tokenizer (field extraction, unmasking, RFC 7692 inflation with compress/flate); "
         "equality of the reassembled payload with the written message is computed in Go and judged in WsWire (TLC cannot hold megabytes)",
         "write/read deadlines, TLS, proxies, subprotocols and cookies are not exercised",
@@ -151,6 +160,7 @@ def run(ctx):
     cases_w = os.path.join(ctx.out, "cases.ndjson")
     cases_h = os.path.join(ctx.out, "cases_handshake.ndjson")
     cases_walk = os.path.join(ctx.out, "cases_walk.ndjson")
+    cases_p = os.path.join(ctx.out, "cases_foreign.ndjson")
 
     # ---- phase 1: the specifications (independent TLC runs side by side) and the harness build
     jobs = []
@@ -163,7 +173,7 @@ def run(ctx):
         jobs.append((f, counted))
         return f
 
-    for m in ("WsWire", "WsWriterCfg", "WsHandshake", "Trace_WsWire"):
+    for m in ("WsWire", "WsWriterCfg", "WsPeer", "WsHandshake", "Trace_WsWire"):
         jobs.append((pool.submit(ctx.sany, SUB, m), False))
     build = pool.submit(ctx.go_build)
     # WsWire: the conformant sender is always accepted ...
@@ -177,6 +187,11 @@ def run(ctx):
         for d in DEVS:
             tlc(False, SUB, "MC_WsWire", "dev.cfg", name="MC_WsWire.dev_" + d.replace("-", "_"), files={"dev.cfg": _dev_cfg(d)},
                 expect_violation="NoReject", workers=2)
+    # WsPeer: the receiver delivers what any conformant sender (one WsWire accepts) wrote; with a deviation of the
+    # receiver's mask / decompress state switched on, Intact must be violated
+    tlc(True, SUB, "MC_WsPeer", "MC_WsPeer.cfg" if thorough else "MC_WsPeer.quick.cfg", coverage=thorough)
+    for d in (PEER_DEVS if thorough else PEER_DEVS[:1] + PEER_DEVS[3:]):
+        tlc(False, SUB, "MC_WsPeer", "MC_WsPeer_dev_%s.cfg" % d.replace("-", "_"), expect_violation="Intact", workers=2)
     # WsHandshake: the table, and its deviations
     tlc(True, SUB, "MC_WsHandshake", "MC_WsHandshake.cfg", coverage=thorough)
     tlc(False, SUB, "MC_WsHandshake", "MC_WsHandshake_dev_accept_without_guid.cfg", expect_violation="LibConnects")
@@ -187,6 +202,7 @@ def run(ctx):
     # GEN
     tlc(True, SUB, "Gen_WsWriterCfg", "Gen_WsWriterCfg.%s.cfg" % t, cases_to=cases_w, timeout=900)
     tlc(True, SUB, "Gen_WsHandshake", "Gen_WsHandshake.%s.cfg" % t, cases_to=cases_h, timeout=900)
+    tlc(True, SUB, "Gen_WsPeer", "Gen_WsPeer.%s.cfg" % t, cases_to=cases_p, timeout=900)
     if thorough:
         tlc(False, SUB, "Gen_WsWriterCfg", "Gen_WsWriterCfg.walk.cfg", cases_to=cases_walk, simulate=150, depth=6, workers=1, timeout=900)
     for f, counted in jobs:
@@ -206,10 +222,12 @@ def run(ctx):
 
     # ---- phase 2: replay against the real library (both replayers side by side)
     fw = pool.submit(ctx.replay, "wswriter", cases_w, dir=trdir, timeout=2400)
-    fh = pool.submit(ctx.replay, "wshandshake", cases_h, dir=os.path.join(trdir, "hs"), extra={"sbase": HS_BASE}, timeout=2400)
-    res_w, res_h = fw.result(), fh.result()
+    fh = pool.submit(_replay_crashing, ctx, "wshandshake", cases_h, dir=os.path.join(trdir, "hs"), extra={"sbase": HS_BASE}, timeout=2400)
+    fp = pool.submit(ctx.replay, "wsforeign", cases_p, timeout=2400)
+    res_w, res_h, res_p = fw.result(), fh.result(), fp.result()
     pool.shutdown()
     ctx.judge("wswriter", cases_w, res_w)
+    ctx.judge("wsforeign", cases_p, res_p)
     ctx.judge("wshandshake", cases_h, res_h, extra={"sbase": HS_BASE})
 
     # ---- phase 3: trace validation of everything the library wrote, plus the binding self-test
@@ -297,6 +315,37 @@ def run(ctx):
         raise vlib.Broken("binding self-test: " + "; ".join(problems))
     if problems:
         ctx.notes["binding_selftest_skipped"] = problems
+
+
+def _replay_crashing(ctx, stage, cases, **kw):
+    """ctx.replay for a stage with goroutines the replayer cannot guard (server handlers, reader pumps). A panic of the
+    library there kills the process; vlib takes it for a verdict when the process dies of a library panic twice in a
+    row and gives up (Broken) when the second run gets through. Such a panic is typically a race inside the library
+    (shared pooled state), so it does not strike every time: here the stage is run up to three times, and the process
+    dying of a panic in library code in two of them is the verdict. One that never comes back stays Broken."""
+    first = None
+    seen = []
+    for attempt in range(3):
+        try:
+            res = ctx.replay(stage, cases, **kw)
+        except vlib.Broken as e:
+            txt = str(e)
+            at = [i for i in (txt.find("panic:"), txt.find("fatal error:")) if i >= 0]
+            lp = vlib.library_panic(txt[min(at):]) if at else None
+            if not lp:
+                raise
+            first = first or e
+            seen.append(lp)
+            if len(seen) == 2:
+                raise vlib.LibraryCrash(stage, "the library panicked on a goroutine outside the replayer's guard and killed the process "
+                                        "(in %d of %d runs of the stage, not every time): %s; %s" % (len(seen), attempt + 1, seen[0], seen[1]))
+            if kw.get("dir"):
+                shutil.rmtree(kw["dir"], ignore_errors=True)     # the sessions recorded by the run that died
+            continue
+        if first is not None:
+            raise first      # it died of a library panic once and then never again: not reproducible, not a verdict
+        return res
+    raise first
 
 
 def _reproduce(ctx, stage, case, why):
